@@ -185,7 +185,7 @@ Definition read_id (s : bytes) : N * N :=
   let '(n, r) := span_while is_digit s in
   match r with 46%N :: g => (parse_N n, parse_N g) | _ => (parse_N n, 0%N) end.
 
-Definition entry (args : list bytes) : bytes :=
+Definition entry_ctx (args : list bytes) : bytes :=
   let fam := nth_arg args 0 in
   if bytes_eqb fam (B "M") then
     let rest := skipn 4 args in
